@@ -421,7 +421,7 @@ func init() {
 func init() {
 	register(propSpec{
 		ID:          "C11",
-		Explanation: "'The output builds for every accepted program' is not decidable here; decided are the classes of compiler panics and ill-formed output the property names, over symbolic ASTs of every supported statement kind with every optional part present/absent: RW.DISPATCH (every supported kind has an accepting path), RW.FACTORY (the AST factory never panics, e.g. on the nil tag of a tag-less switch), RW.EXH/RW.TERM (the termination checker is total and never over-approximates on ~2000 shapes, incl. unlabelled break in trailing native loops/switches), RW.KINDTAB (block tables defined for every block kind that becomes a thunk body), RW.CLOSE (every statement list wrapped into a thunk is closed with a final return on its path; the list contract closes the block that is actually open), RW.TMPL.FOR (no nil node in a loop call's arguments), RW.BRANCHCTX (break/continue/goto in nested closures stay native: select is a break target), OPT.ETA (closures over builtins, conversions, generic functions, differing types are kept), RW.IMPORT / OPT.ORDER (seq is referred to under the name it is imported under; imports cleaned before printing), RW.TMPL.CONSUMER and RW.RANGEDISPATCH (recorded build-breaking findings D15, D16, D21).",
+		Explanation: "'The output builds for every accepted program' is not decidable here; decided are the classes of compiler panics and ill-formed output the property names, over symbolic ASTs of every supported statement kind with every optional part present/absent: RW.DISPATCH (every supported kind has an accepting path), RW.FACTORY (the AST factory never panics, e.g. on the nil tag of a tag-less switch), RW.EXH/RW.TERM (the termination checker is total and never over-approximates on ~2000 shapes, incl. unlabelled break in trailing native loops/switches), RW.KINDTAB (block tables defined for every block kind that becomes a thunk body), RW.CLOSE (every statement list wrapped into a thunk is closed with a final return on its path; the list contract closes the block that is actually open), RW.TMPL.FOR (no nil node in a loop call's arguments), RW.BRANCHCTX (break/continue/goto in nested closures stay native: select is a break target), OPT.ETA (closures over builtins, conversions, generic functions, differing types are kept), RW.IMPORT / OPT.ORDER (seq is referred to under the name it is imported under; imports cleaned before printing), RW.YIELDTYPE (a yield whose operand is assignable to the element type is never rejected), RW.TMPL.CONSUMER and RW.RANGEDISPATCH (recorded build-breaking findings D15, D16, D21).",
 		Trusted:     []string{"go/printer, go/packages", "go-imports", "go/ssa construction", "go/ast grammar facts"},
 		Run: func(c *Ctx) {
 			r := newRwRT(c)
@@ -435,6 +435,7 @@ func init() {
 			c.guard("RW.BRANCHCTX", r.ruleBranchCtx)
 			c.guard("OPT.ETA", r.ruleOptEta)
 			c.guard("RW.IMPORT", r.ruleImport)
+			c.guard("RW.YIELDTYPE", r.ruleYieldType)
 			// an ordinary closure nested in a generator keeps its statements as written: a hoisted `:=`
 			// initialiser puts a label in front of a block (`L: { i := 0; for … }`), `continue L` no longer builds
 			c.guard("RW.TMPL.HOIST", r.rulePass0)
